@@ -76,8 +76,10 @@ func (s String) Inspect() string {
 			break
 		}
 		if char == utf8.RuneError && size == 1 {
-			// invalid UTF-8 character
-			char = rune(leftStr[0])
+			// invalid UTF-8 byte: the lexer reads `\xNN` back as this raw byte
+			fmt.Fprintf(&buffer, `\x%02x`, leftStr[0])
+			leftStr = leftStr[size:]
+			continue
 		}
 		switch char {
 		case '\\':
@@ -105,7 +107,7 @@ func (s String) Inspect() string {
 		default:
 			if unicode.IsGraphic(char) {
 				buffer.WriteRune(char)
-			} else if char>>8 == 0 {
+			} else if char < utf8.RuneSelf {
 				fmt.Fprintf(&buffer, `\x%02x`, char)
 			} else if char>>16 == 0 {
 				fmt.Fprintf(&buffer, `\u%04x`, char)
